@@ -104,7 +104,7 @@ func scanLong(comment bool) stateFn {
 				break OpeningLoop
 			default:
 				if comment {
-					l.ignore()
+					l.backup() // the short comment may end right here (line break)
 					return scanShortComment
 				}
 				return l.errorf(token.INVALID, "expected opening long bracket")
